@@ -180,7 +180,12 @@ func (l *ParamList) FromText(rawparams []byte) error {
 	//     b. the mandatory keys are all available in this list
 	text := bytes.Split(rawparams, paramDelim)
 	seen := make(map[paramNum]int)
-	for idx := 0; idx < len(text) && len(text[idx]) > 0; idx++ {
+	for idx := 0; idx < len(text); idx++ {
+		// an empty segment ("a;;b", a leading or a trailing ";") carries
+		// no parameter: skip it and keep parsing the rest of the list
+		if len(text[idx]) == 0 {
+			continue
+		}
 		p := param{}
 		err := p.fromText(text[idx])
 		if err != nil {
@@ -190,7 +195,9 @@ func (l *ParamList) FromText(rawparams []byte) error {
 		if presence {
 			return fmt.Errorf("error parsing %s: keys have to be unique", text[idx])
 		}
-		seen[p.keynum] = idx
+		// remember the position in the list (not in text: the two
+		// differ once a segment has been skipped)
+		seen[p.keynum] = len(*l)
 		*l = append(*l, p)
 	}
 
